@@ -300,6 +300,7 @@ class Device:
         body = bytes(data[1:])
         if op == 0x01:
             self.received = {}
+            self.oversize = None
             self.reported_success = False
             if len(body) == 21 + 4:
                 self.received["path"] = body[:21]
@@ -319,6 +320,7 @@ class Device:
         sg = self.sg
         if op == 0x02 and sg["stage"] == "tx":
             if len(body) > self.ask:
+                self.oversize = (sg["stage"], self.ask, len(body))     # sent more than was asked for
                 return self.err(0x6A87)
             sg["buf"] += body
             if sg["total"] is None and len(sg["buf"]) >= 7:
@@ -336,6 +338,7 @@ class Device:
             return D(CLA, 0x02, 0x02, self.ask)
         if op == 0x04 and sg["stage"] == "receipt":
             if len(body) > self.ask:
+                self.oversize = (sg["stage"], self.ask, len(body))     # sent more than was asked for
                 return self.err(0x6A87)
             sg["buf"] += body
             if sg["total"] is None:
@@ -353,6 +356,7 @@ class Device:
             return D(CLA, 0x02, 0x04, self.ask)
         if op == 0x08 and sg["stage"] == "proof":
             if len(body) > self.ask:
+                self.oversize = (sg["stage"], self.ask, len(body))     # sent more than was asked for
                 return self.err(0x6A87)
             sg["buf"] += body
             need = self._proof_need(sg["buf"])
